@@ -63,6 +63,11 @@ CLAIMS = {
    note=TB+"Programs: skeletons bad/basic; notation texts from menus, not arbitrary byte strings. Panics/hangs inside go/packages, imports, regexp are outside.",
    technique="symbolic execution of go/ssa with native go/types bridge; panic-freedom as path outcome; native replay",
    ref="4/C14"),
+ "C04": dict(
+   text="Symbolic execution of the real assignment builder over a 35x35 matrix of Go field-type pairs (native go/types objects) with the four toggles and the match rule as symbolic inputs: every decision is compared with an independent reference matcher written from the property statement on go/types facts (AssignableTo/ConvertibleTo/method sets), including the stand-alone implications (no conversion / String() / getter without opt-in, nothing matched under :match none), and every emitted function is type-checked.",
+   note=TB+"Programs: skeleton types (+ names when registered); field names concrete (arbitrary-string comparison is C19).",
+   technique="symbolic execution of go/ssa with native go/types bridge; differential against a reference matcher; Go type checker as judge; native replay",
+   ref="4/C04"),
 }
 
 NA_REASON = "check under construction in this session (engine exists, harness not yet registered); see DESIGN.md section 4"
